@@ -55,8 +55,10 @@ def showFinal (st : St) : String :=
   let logs := (st.branches.zipIdx.filter fun p => p.1.hasLog).map fun p => toString (p.2 + 1)
   s!"t={showTable st.t} undo={if logs.isEmpty then "-" else ",".intercalate logs}"
 
+instance : Inhabited St := ⟨{ sc := { ncols := 0, pk := [] }, cfg := { validate := false, onlyCare := false }, t := [] }⟩
+
 /-- script interpreter -/
-def runScript (st : St) : List String → Option LocalTx → St
+partial def runScript (st : St) : List String → Option LocalTx → St
   | [], cur => match cur with | some l => runLocal st l | none => st
   | tok :: rest, cur =>
     let flush (st : St) : St := match cur with | some l => runLocal st l | none => st
@@ -74,6 +76,30 @@ def runScript (st : St) : List String → Option LocalTx → St
       let n := st1.branches.length
       let st2 := (List.range n).reverse.foldl rollbackBranch st1
       runScript { st2 with out := st2.out ++ [showFinal st2] } rest none
+    else if tok.startsWith "RBx" then
+      -- a rollback delivery during which a database statement fails: the undo transaction is rolled
+      -- back as a whole, the branch is not answered rollbacked, nothing changes
+      let st1 := flush st
+      runScript { st1 with out := st1.out ++ ["rb:fail", showFinal st1] } rest none
+    else if tok == "LR" then
+      -- the coordinator rolls the NEXT local transaction's branch back between its registration and
+      -- its undo-log flush: a marker row is left, the late flush hits the unique key, nothing commits
+      let st1 := flush st
+      let stmts := rest.takeWhile fun t => t != "L" && t != "LR" && t != "END" && !(t.startsWith "RB") && t != "SNAP" && !(t.startsWith "F")
+      let rest' := rest.drop stmts.length
+      match stmts.mapM parseStmt with
+      | none => { st1 with out := st1.out ++ ["bad-stmt-in-LR"] }
+      | some ltx =>
+        match localPhase1 st1.sc st1.cfg st1.t ltx with
+        | .error _ => runScript { st1 with out := st1.out ++ ["L:err"] } rest' none
+        | .ok (_, b) =>
+          if b.items.isEmpty then
+            -- nothing to flush: the local commit goes through, the marker stays
+            runScript { st1 with out := st1.out ++ ["L:early-rb:ok:committed"],
+                                 branches := st1.branches ++ [{ b := { items := [], lockKeys := b.lockKeys }, hasLog := false, marker := true }] } rest' none
+          else
+            runScript { st1 with out := st1.out ++ ["L:early-rb:ok:late-commit-refused"],
+                                 branches := st1.branches ++ [{ b := { items := [], lockKeys := b.lockKeys }, hasLog := false, marker := true }] } rest' none
     else if tok.startsWith "RB" then
       let st1 := flush st
       match (sdrop tok 2).toNat? with
